@@ -19,6 +19,7 @@ PROPS = {
     "C06": otl.C06,
     "C07": exhaust.ALL_C07 + [_scoped(exhaust.f19_varidx, scope=("subset/",), rule="F19"), _scoped(determinism.f12_set_order, scope=("subset/",), rule="F12-subset")],
     "C08": exhaust.ALL_C08 + [_scoped(exhaust.f19_varidx, scope=("varLib/instancer/",), rule="F19"), _scoped(determinism.f12_set_order, scope=("varLib/instancer/",), rule="F12-instancer")],
+    "C10": design.C10 + [_scoped(exhaust.f19_varidx, scope=("varLib/__init__.py", "varLib/merger.py", "varLib/cff.py", "varLib/varStore.py", "varLib/featureVars.py"), rule="F19"), _scoped(determinism.f12_set_order, scope=("varLib/__init__.py", "varLib/merger.py", "varLib/models.py", "varLib/cff.py", "varLib/featureVars.py", "varLib/varStore.py", "varLib/builder.py", "varLib/stat.py", "varLib/avar/"), rule="F12-varlib")],
     "C11": fea.ALL + [_scoped(exhaust.f19_varidx, scope=("feaLib/",), rule="F19"), _scoped(determinism.f12_set_order, scope=("feaLib/", "otlLib/"), rule="F12-fea")],
     "C12": cff.ALL + [codecs.f6_tables, codecs.f5_ps_operands, codecs.f5_subr_bias],
     "C13": curves.ALL,
